@@ -309,6 +309,23 @@ class Impl:
                           "(offending length field %r)" % (data, els, bad), c, sig)
         return "ok %d %s" % (pos, ",".join(hx(e) for e in els) or ".")
 
+    def utf8ok(self, c):
+        """what unpack_extension does to a key: str(key, "utf-8")"""
+        x = unhx(c["x"])
+        try:
+            t = str(x, "utf-8")
+        except UnicodeDecodeError:
+            return "F"
+        if t.encode("utf-8") != x:
+            self.viol("str(key, 'utf-8') accepts bytes that are not the UTF-8 encoding of the result", c, "utf8-noncanonical-accepted")
+        return "T"
+
+    def utf8enc(self, c):
+        b = "".join(chr(cp) for cp in c["cps"]).encode("utf-8")
+        if str(b, "utf-8") != "".join(chr(cp) for cp in c["cps"]):
+            self.viol("utf-8 round trip of a key fails", c, "utf8-roundtrip")
+        return hx(b)
+
     def pyint(self, c):
         try:
             return "ok %d" % int(unhx(c["x"]))
@@ -661,6 +678,21 @@ class Impl:
             except AssertionError:
                 head = "err:assertion"
         s = self.mutable_schema.schema_from_header(data[:100])
+        # the container classes themselves: a file is a mutable container iff its first 32 bytes are, in
+        # full, the magic of one of the schemas
+        magics = {self.mutable_schema._magic(1): 1, self.mutable_schema._magic(2): 2}
+        exact = magics.get(data[:32])
+        try:
+            opened = self.smut.MutableShareFile(fn)._schema.version
+        except self.smut.UnknownMutableContainerVersionError:
+            opened = None
+        valid = self.smut.MutableShareFile.is_valid_header(data[:100])
+        if (opened, valid, None if s is None else s.version) != (exact, exact is not None, exact):
+            if exact is None:
+                self.viol("a file whose first 32 bytes %r are not a mutable-container magic is recognised as a v%s mutable container"
+                          % (data[:32], opened or (s and s.version)), c, "mutable-header-malformed-accepted")
+            else:
+                self.viol("a mutable container with the v%d magic is not recognised as such" % exact, c, "mutable-header-rejected")
         return head + " dl=%s elo=%s nx=%s schema=%s" % (opt(msf._read_data_length), opt(msf._read_extra_lease_offset),
                                                         opt(msf._read_num_extra_leases), "x" if s is None else s.version)
 
@@ -675,6 +707,10 @@ def line_of(c, mode="s"):
     k = c["k"]
     if k in ("b32enc", "b62enc", "pyint", "immvalid", "rdimmhdr", "rdmuthdr"):
         return "%s %s" % (k, c["x"])
+    if k == "utf8ok":
+        return "utf8ok %s" % c["x"]
+    if k == "utf8enc":
+        return "utf8enc %s" % (",".join("%d" % cp for cp in c["cps"]) or "-")
     if k == "ns":
         return "ns %s" % c["x"]
     if k in ("b32could", "b32dec"):
@@ -791,7 +827,35 @@ CORPUS = [
      "renews": [2000, 3000]},
     {"k": "muthdr", "v": 2, "n": "33" * 20, "w": "44" * 32},
     {"k": "muthdr", "v": 1, "n": "33" * 20, "w": "44" * 32},
+    # UTF-8 validity of keys: boundary scalars, overlong, surrogate, > U+10FFFF, truncated
+    {"k": "utf8enc", "cps": [0x7f, 0x80, 0x7ff, 0x800, 0xd7ff, 0xe000, 0xffff, 0x10000, 0x10ffff]},
+    {"k": "utf8ok", "x": "c3a9e282acf09f9880"},
+    {"k": "utf8ok", "x": "c080"}, {"k": "utf8ok", "x": "e0809f"}, {"k": "utf8ok", "x": "eda080"},
+    {"k": "utf8ok", "x": "f08f8080"}, {"k": "utf8ok", "x": "f4908080"}, {"k": "utf8ok", "x": "e282"},
+    {"k": "uebunpack", "x": hx("clé".encode("utf-8") + b":1:x,")},
+    {"k": "uebunpack", "x": hx(b"cl\xe9:1:x,")},
 ]
+
+
+def mutable_header_corpus():
+    """fixed mutable-container headers: good v1/v2, magic damaged only in its five trailing bytes, and the
+    version number spelled non-canonically"""
+    from allmydata.storage import mutable_schema
+    cs = []
+    for v in (1, 2):
+        magic = mutable_schema._magic(v)
+        body = b"\x33" * 20 + b"\x44" * 32 + struct.pack(">QQ", 0, 468) + b"\x00" * 368 + struct.pack(">L", 0)
+        variants = [magic,
+                    magic[:31] + bytes([magic[31] ^ 1]),
+                    magic[:27] + bytes([magic[27] ^ 0x80]) + magic[28:],
+                    magic[:27] + b"\x00" * 5,
+                    magic[:25] + b"0%d\n" % v + magic[27:31],          # "v01\n" / "v02\n"
+                    magic[:25] + b"3\n" + magic[27:],
+                    magic[:26] + b"\r" + magic[27:]]
+        for m in variants:
+            cs.append({"k": "rdmuthdr", "x": hx(m + body)})
+        cs.append({"k": "rdmuthdr", "x": hx(magic)})                 # magic only: a container, but no header to read
+    return cs
 
 
 def gen_base32(rng, n):
@@ -874,6 +938,25 @@ def gen_netstring(rng, n):
                 m = mutate(rng, data, b"0123456789:,")
             cs.append({"k": "nssplit", "x": hx(m), "n": rng.choice([k, k, 1, 0]), "pos": 0,
                        "tr": rng.choice([None, None, None, hx(b"")])})
+    return cs
+
+
+def rand_scalar(rng):
+    c = rng.choice([0, 0x41, 0x7f, 0x80, 0x7ff, 0x800, 0xfff, 0x1000, 0xd7ff, 0xe000, 0xffff, 0x10000, 0x3ffff, 0x40000,
+                    0xfffff, 0x100000, 0x10ffff, rng.randrange(0x110000), rng.randrange(0x110000), rng.randrange(0x800)])
+    return c if not (0xd800 <= c <= 0xdfff) else 0xd7ff
+
+
+def gen_utf8(rng, n):
+    cs = []
+    for _ in range(n):
+        cps = [rand_scalar(rng) for _ in range(rng.randrange(0, 5))]
+        cs.append({"k": "utf8enc", "cps": cps})
+        good = "".join(chr(c) for c in cps).encode("utf-8")
+        cs.append({"k": "utf8ok", "x": hx(good)})
+        for _ in range(2):
+            cs.append({"k": "utf8ok", "x": hx(mutate(rng, good, b"\x80\xbf\xc0\xc1\xc2\xdf\xe0\xed\xef\xf0\xf4\xf5\xa0\x9f\x90\x8f"))})
+        cs.append({"k": "utf8ok", "x": hx(bytes(rng.choice(b"\x41\x80\xbf\xc0\xc2\xe0\xa0\x9f\xed\xf0\x90\x8f\xf4\xf5\xff") for _ in range(rng.randrange(1, 6))))})
     return cs
 
 
@@ -1075,7 +1158,7 @@ def gen_records(rng, n):
         elif r < 0.6:
             x = good[:rng.choice([0, 31, 32, 84, 92, 99, 100, 467, 468, 471])]
         elif r < 0.8:
-            i = rng.randrange(0, 40)
+            i = rng.choice([rng.randrange(0, 40), rng.randrange(27, 32), rng.randrange(25, 32)])
             x = good[:i] + bytes([good[i] ^ (1 << rng.randrange(8))]) + good[i + 1:]
         else:
             x = mutate(rng, good)
@@ -1112,12 +1195,13 @@ def run(ctx):
             cases = [ctx.replay["case"]]
         else:
             rng = ctx.rng
-            cases = list(CORPUS)      # fixed corpus first: one input per known mechanism, independent of the seed
+            cases = list(CORPUS) + mutable_header_corpus()   # fixed corpus first, independent of the seed
         if not ctx.replay and not os.environ.get("VERIF_CORPUS_ONLY"):
             cases += gen_base32(rng, ctx.budget(150, 6000))
             cases += gen_base62(rng, ctx.budget(120, 4000))
             cases += gen_netstring(rng, ctx.budget(200, 8000))
             cases += gen_pyint(rng, ctx.budget(300, 20000))
+            cases += gen_utf8(rng, ctx.budget(150, 8000))
             cases += gen_ueb(rng, ctx.budget(150, 6000))
             cases += gen_struct(rng, ctx.budget(200, 8000))
             cases += gen_records(rng, ctx.budget(100, 3000))
